@@ -539,16 +539,16 @@ def run(ctx):
             # every world (depth, deviation, link) x every packet, one instance anchored at RA: all paths
             ('links', consts(['v1'], 1, ctx.pick('W3', 'W4'), unk, has, anchors='MCAnchorsGood'), kts, None),
             # ... and with both instances, good and bad anchors
-            ('main', consts(INSTS2, ctx.pick(1, 2), ctx.pick('W2', 'W4'), unk, has), kts, ctx.pick(120, 8000)),
+            ('main', consts(INSTS2, ctx.pick(1, 2), ctx.pick('W2', 'W4'), unk, has), kts, ctx.pick(80, 8000)),
             # orders / interleavings of up to 3 validations by two instances on a few worlds
-            ('orders', consts(INSTS2, ctx.pick(2, 3), 'WOrd', unk, has, anchors='MCAnchorsGood'), ['ec'], ctx.pick(100, 5000)),
+            ('orders', consts(INSTS2, ctx.pick(2, 3), 'WOrd', unk, has, anchors='MCAnchorsGood'), ['ec'], ctx.pick(80, 5000)),
             # fetch fault, Heal, then the same / another packet of the chain again, on the same and on the other instance
-            ('heal', consts(INSTS2, ctx.pick(2, 3), 'WHeal', unk, has, anchors='MCAnchorsGood', maxheal=1), ['ec'], ctx.pick(120, 4000)),
+            ('heal', consts(INSTS2, ctx.pick(2, 3), 'WHeal', unk, has, anchors='MCAnchorsGood', maxheal=1), ['ec'], ctx.pick(100, 4000)),
             # two certificates of one key name (one good, one forged / not retrievable), packets naming each, both orders
             ('twincert', consts(['v1'], 2, 'WTwin', unk, has, anchors='MCAnchorsGood'), ['ec'], None),
             # ... the same worlds (also: a forgery re-using the signature value of a genuine packet / certificate) with a
             # second, fresh instance
-            ('history2', consts(INSTS2, 2, 'WTwin', unk, has, anchors='MCAnchorsGood'), ['ec'], ctx.pick(120, 3000)),
+            ('history2', consts(INSTS2, 2, 'WTwin', unk, has, anchors='MCAnchorsGood'), ['ec'], ctx.pick(100, 3000)),
             # schemas with two roots of trust: anchors matching one root only / both
             ('roots', consts(INSTS2, 1, 'W2R', unk, has, anchors='MCAnchors2'), ['ec'], ctx.pick(40, 400)),
             ('ed25519', consts(INSTS2, 2, 'WEd', unk, has, anchors='MCAnchorsGood'), ['ed'], ctx.pick(30, 400))], pool, cache)
